@@ -422,6 +422,12 @@ func (cu *ContractUpdater) Commit(revision SignedRevision, usage Usage) error {
 		panic("contract updater used with wrong contract")
 	}
 
+	// the updater may have been opened, and its contract locked, many blocks
+	// ago: the revision must still be confirmable
+	if err := cu.manager.Revisable(cu.contractID); err != nil {
+		return err
+	}
+
 	start := time.Now()
 	// revise the contract
 	err := cu.store.ReviseContract(revision, cu.oldRoots, usage, cu.sectorActions)
